@@ -208,6 +208,8 @@ impl<Sink: TokenSink> XmlTokenizer<Sink> {
                 if c == '\u{feff}' {
                     input.next();
                 }
+                // Only the very first character of the stream can be a byte order mark.
+                self.discard_bom.set(false);
             } else {
                 return TokenizerResult::Done;
             }
